@@ -224,6 +224,27 @@ Definition required_errors (g : graph) (roots : list nat) : option (list name) :
   | Some vis => Some (flat_map (missing_required g) vis)
   end.
 
+(* The same traversal with the memo keyed differently: [key n] instead of [n]. With
+   [key] = the user type's attribute when the attribute's type is a user type ("validate
+   a user type only once") the recursion still stops, but only the FIRST attribute
+   referring to a type is visited. Returns the flagged keys and the attributes visited. *)
+Fixpoint kwalk2 (key : nat -> nat) (children : nat -> list nat) (fuel : nat) (st : list nat * list nat) (n : nat)
+  : option (list nat * list nat) :=
+  match fuel with
+  | 0 => None
+  | S f =>
+      if mem (key n) (fst st) then Some st
+      else fold_left (fun acc c => match acc with None => None | Some s => kwalk2 key children f s c end)
+                     (children n) (Some (key n :: fst st, n :: snd st))
+  end.
+
+Definition type_key (g : graph) (n : nat) : nat :=
+  match get g n with Some nd => match n_user nd with Some u => u | None => n end | None => n end.
+
+Definition visited_keyed (key : nat -> nat) (g : graph) (roots : list nat) : list nat :=
+  snd (fold_left (fun st r => match kwalk2 key (validate_children g) (S (S (List.length g))) st r with Some s => s | None => st end)
+                 roots ([], [])).
+
 (* ====================================================================== *)
 (* Part 1 - reference integrity                                           *)
 (* ====================================================================== *)
@@ -296,6 +317,14 @@ Record service := mkS {
 
 Record rtype := mkRT { rt_attrs : list name; rt_views : list view }.
 
+(* what AttributeExpr.Validate checks on the attribute itself, whatever its type
+   (expr/attribute.go:210-214, :246-262): parallel to the graph, by node index *)
+Record nattr := mkA {
+  a_view : option name;            (* View(v) / Meta("view", v) on this attribute *)
+  a_rtviews : option (list name);  (* Some vs: the attribute's type is a result type defining the views vs *)
+  a_badrange : bool                (* its own validations are contradictory (minimum > maximum, min length > max length) *)
+}.
+
 Record design := mkD {
   d_errors : list errdef;
   d_reqs : list req;
@@ -304,7 +333,8 @@ Record design := mkD {
   d_rtypes : list rtype;          (* result types: every view may list only attributes of the type *)
   d_services : list service;
   d_graph : graph;
-  d_roots : list nat              (* payload / result / error type attributes of the methods *)
+  d_roots : list nat;             (* payload / result / error type attributes of the methods *)
+  d_attrs : list nattr            (* per attribute of the graph *)
 }.
 
 Inductive err :=
@@ -324,6 +354,8 @@ Inductive err :=
 | EScheme (n : name)           (* security scheme %q not found *)
 | EScope (n : name)            (* security scope %q not found in any of the security schemes. *)
 | EView (n : name)             (* type %q does not define view %q *)
+| EViewNotRT (n : name)        (* uses view %q but %q is not a result type *)
+| EBadRange                    (* minimum is greater than maximum / min length is greater than max length ... *)
 | EViewAttr (n : name)         (* unknown attribute %#v (view DSL) *)
 | ERequired (n : name)         (* required field %q does not exist in type %s *)
 | ENoUsername | ENoPassword | ENoAPIKey | ENoToken | ENoAccessToken
@@ -401,7 +433,7 @@ Definition dsl_errors (d : design) : list err :=
       match m_http m with Some h => dsl_errors_http m h | None => [] end) (s_methods s)) (d_services d).
 
 (* MethodExpr.Validate: requirement scopes (expr/method.go:147-162) and the view of
-   the result (via AttributeExpr.Validate, expr/attribute.go:246-265) *)
+   the result is the View meta of the result attribute, checked like any attribute's (below) *)
 Definition effective_reqs (d : design) (s : service) (m : method) : list req :=
   match m_reqs m with
   | _ :: _ => m_reqs m
@@ -461,12 +493,7 @@ Definition validate_creds (d : design) (s : service) (m : method) : list err :=
 
 Definition validate_method (d : design) (s : service) (m : method) : list err :=
   validate_creds d s m ++
-  flat_map (fun q => map EScope (filter (fun sc => negb (scope_known d q sc)) (q_scopes q))) (effective_reqs d s m) ++
-  match r_fixed (m_result m), r_views (m_result m) with
-  | Some v, Some vs => if Nat.eqb v default_view then [] else
-                       match lookup_view vs v with Some _ => [] | None => [EView v] end
-  | _, _ => []
-  end.
+  flat_map (fun q => map EScope (filter (fun sc => negb (scope_known d q sc)) (q_scopes q))) (effective_reqs d s m).
 
 Definition err_declared (names : list name) (n : name) : bool := mem n names.
 
@@ -532,6 +559,25 @@ Definition validate_http (d : design) (s : service) (m : method) (h : http) : li
   flat_map (validate_response m) (h_responses h) ++
   flat_map (validate_eresponse [m_errors m; s_errors s; d_errors d]) (h_errors h).
 
+Definition reachable_nodes (g : graph) (roots : list nat) : list nat :=
+  match walk_roots (validate_children g) (graph_fuel g) [] roots with Some v => v | None => [] end.
+
+(* every attribute the traversal visits is checked on its own account: the memo is
+   keyed by the attribute, not by its type, so two attributes of the same result type
+   are both looked at *)
+Definition attr_errors (ats : list nattr) (n : nat) : list err :=
+  match nth_error ats n with
+  | None => []
+  | Some a =>
+      (match a_view a with
+       | None => []
+       | Some v => match a_rtviews a with
+                   | None => [EViewNotRT v]
+                   | Some vs => if Nat.eqb v default_view || mem v vs then [] else [EView v]
+                   end
+       end) ++ (if a_badrange a then [EBadRange] else [])
+  end.
+
 Definition validation_errors (d : design) : list err :=
   flat_map (validate_eresponse [d_errors d]) (d_herrors d) ++
   flat_map (fun s =>
@@ -542,7 +588,8 @@ Definition validation_errors (d : design) : list err :=
   match required_errors (d_graph d) (d_roots d) with
   | None => [EFuel]
   | Some ns => map ERequired ns
-  end.
+  end ++
+  flat_map (attr_errors (d_attrs d)) (reachable_nodes (d_graph d) (d_roots d)).
 
 (* eval.RunDSL (eval/eval.go:17-69): errors recorded while the DSL runs stop the
    evaluation before validation *)
@@ -563,7 +610,7 @@ Inductive ref :=
 | RErrAttr (ls : list (list errdef)) (e n : name) (* error response header -> attribute of the error type *)
 | RScheme (d : design) (n : name)               (* requirement -> registered scheme *)
 | RScope (d : design) (q : req) (n : name)      (* requirement scope -> scope of one of its schemes *)
-| RView (m : method) (v : name)                 (* Result view -> view of the result type *)
+| RAttrView (ats : list nattr) (n : nat) (v : name)   (* View on an attribute (the Result, a field, an array element...) -> view of ITS result type *)
 | RViewAttr (t : rtype) (n : name)              (* attribute listed in a view -> attribute of the result type *)
 | RRequired (g : graph) (nd : nat) (n : name)   (* Required name -> attribute Find can reach *)
 | RCred (m : method) (c : cred).                (* scheme of an effective requirement -> its credential attribute in the payload *)
@@ -579,9 +626,6 @@ Definition http_refs (d : design) (s : service) (m : method) (h : http) : list r
 Definition req_refs (d : design) (q : req) : list ref :=
   map (RScheme d) (q_schemes q).
 
-Definition reachable_nodes (g : graph) (roots : list nat) : list nat :=
-  match walk_roots (validate_children g) (graph_fuel g) [] roots with Some v => v | None => [] end.
-
 Definition refs (d : design) : list ref :=
   flat_map (req_refs d) (d_reqs d) ++
   flat_map (fun t => flat_map (fun w => map (RViewAttr t) (v_attrs w)) (rt_views t)) (d_rtypes d) ++
@@ -593,10 +637,12 @@ Definition refs (d : design) : list ref :=
       flat_map (req_refs d) (m_reqs m) ++
       flat_map (fun q => map (RScope d q) (q_scopes q)) (effective_reqs d s m) ++
       flat_map (fun q => flat_map (fun n => map (RCred m) (needed d n)) (q_schemes q)) (effective_reqs d s m) ++
-      (match r_fixed (m_result m), r_views (m_result m) with Some v, Some _ => [RView m v] | _, _ => [] end) ++
       match m_http m with Some h => http_refs d s m h | None => [] end) (s_methods s)) (d_services d) ++
   flat_map (fun n => match get (d_graph d) n with
                      | Some nd => match n_kind nd with KObj _ => map (RRequired (d_graph d) n) (n_req nd) | _ => [] end
+                     | None => [] end) (reachable_nodes (d_graph d) (d_roots d)) ++
+  flat_map (fun n => match nth_error (d_attrs d) n with
+                     | Some a => match a_view a with Some v => [RAttrView (d_attrs d) n v] | None => [] end
                      | None => [] end) (reachable_nodes (d_graph d) (d_roots d)).
 
 Definition resolves (r : ref) : Prop :=
@@ -626,8 +672,7 @@ Definition resolves (r : ref) : Prop :=
                        match e_shape ed with SObj attrs => In n attrs | _ => True end
   | RScheme d n => exists sc, In sc (d_schemes d) /\ sc_name sc = n
   | RScope d q n => exists s sc, In s (q_schemes q) /\ In sc (d_schemes d) /\ sc_name sc = s /\ In n (sc_scopes sc)
-  | RView m v => v = default_view \/
-                 match r_views (m_result m) with Some vs => exists w, In w vs /\ v_name w = v | None => False end
+  | RAttrView ats n v => exists a vs, nth_error ats n = Some a /\ a_rtviews a = Some vs /\ (v = default_view \/ In v vs)
   | RViewAttr t n => In n (rt_attrs t)
   | RRequired g nd n => exists c, gfind g (find_fuel g) nd n = Some (Some c)
   | RCred m c => In c (m_creds m)
